@@ -20,26 +20,24 @@ Import ListNotations.
 
 (** * 1. Loading: state machine over all operation sequences *)
 
-Lemma the_cfg_prog_good : prog_good the_cfg = true.
-Proof. vm_compute. reflexivity. Qed.
+(** the three decidable predicates on the extracted facts are established by computation
+    inside the theorem that needs them (so a change in the source breaks that theorem) *)
+Ltac facts_good := vm_compute; reflexivity.
 
 (** a failed load leaves the installed array in place and reports the load's own error *)
 Theorem load_atomic : forall s dir N req parts k,
   snd (loadCollisions the_cfg s dir N req parts) = Err k ->
   fst (loadCollisions the_cfg s dir N req parts) = s /\
   newFromDirectory the_cfg dir N req parts true = Err k.
-Proof. exact (CollisionLoad.load_atomic the_cfg the_cfg_prog_good). Qed.
+Proof. apply (CollisionLoad.load_atomic the_cfg). facts_good. Qed.
 Print Assumptions load_atomic.
 
 (** over EVERY sequence of particle-list updates and loads the solver state and the reported
     outcomes are those of "install exactly when the load succeeds" *)
 Theorem load_sequences : forall N req ops parts s,
   run the_cfg N req ops parts s = run_spec the_cfg N req ops parts s.
-Proof. exact (CollisionLoad.load_sequences the_cfg the_cfg_prog_good). Qed.
+Proof. apply (CollisionLoad.load_sequences the_cfg). facts_good. Qed.
 Print Assumptions load_sequences.
-
-Lemma the_cfg_data_good : data_good the_cfg = true.
-Proof. vm_compute. reflexivity. Qed.
 
 (** Ok => on the requested grid, in the requested basis, every ordered pair (i, j) holds
     exactly the numbers of the file of (particle i, particle j), never transformed under a
@@ -50,7 +48,7 @@ Theorem load_complete : forall dir N req parts a,
   forall i j, i < length parts -> j < length parts ->
     exists f, dir (nth i parts 0) (nth j parts 0) = Some f /\
               a_blocks a i j = Some (mkblock (f_data f) N req true).
-Proof. exact (CollisionLoad.load_complete the_cfg the_cfg_data_good). Qed.
+Proof. apply (CollisionLoad.load_complete the_cfg). facts_good. Qed.
 Print Assumptions load_complete.
 
 (** non-vacuity and a worked instance: two particles, files on N=7 in the Chebyshev basis,
@@ -137,23 +135,177 @@ Example layout_example :
    93; 94; 99; 100; 102; 103; 126; 127; 129; 130; 135; 136; 138; 139].
 Proof. vm_compute. reflexivity. Qed.
 
+(** ** 2b. The interpolated operator acts on low-order distributions like the source
+       operator, evaluated at the new grid points (all P, all sizes; over R) *)
+Section Action.
+Local Open Scope R_scope.
+Definition Rsum := sumn R 0 Rplus.
+
+Lemma Rsum_S n f : Rsum (S n) f = Rsum n f + f n. Proof. reflexivity. Qed.
+Lemma Rsum_0 f : Rsum 0 f = 0. Proof. reflexivity. Qed.
+
+Lemma Rsum_ext n f g : (forall i, (i < n)%nat -> f i = g i) -> Rsum n f = Rsum n g.
+Proof.
+  induction n as [|n IH]; intros H; [reflexivity|].
+  rewrite !Rsum_S, IH by (intros; apply H; lia). rewrite H by lia. reflexivity.
+Qed.
+Lemma Rsum_zero n f : (forall i, (i < n)%nat -> f i = 0) -> Rsum n f = 0.
+Proof.
+  induction n as [|n IH]; intros H; [reflexivity|].
+  rewrite Rsum_S, IH by (intros; apply H; lia). rewrite H by lia. ring.
+Qed.
+Lemma Rsum_plus n f g : Rsum n (fun i => f i + g i) = Rsum n f + Rsum n g.
+Proof. induction n as [|n IH]; [rewrite !Rsum_0; ring|]. rewrite !Rsum_S, IH. ring. Qed.
+Lemma Rsum_mul_r n f x : Rsum n f * x = Rsum n (fun i => f i * x).
+Proof. induction n as [|n IH]; [rewrite !Rsum_0; ring|]. rewrite !Rsum_S, <- IH. ring. Qed.
+Lemma Rsum_swap n m (f : nat -> nat -> R) :
+  Rsum n (fun i => Rsum m (fun j => f i j)) = Rsum m (fun j => Rsum n (fun i => f i j)).
+Proof.
+  induction n as [|n IH].
+  - rewrite Rsum_0. symmetry. apply Rsum_zero. reflexivity.
+  - rewrite Rsum_S, IH. symmetry.
+    rewrite (Rsum_ext m _ (fun j => Rsum n (fun i => f i j) + f n j))
+      by (intros; reflexivity).
+    apply Rsum_plus.
+Qed.
+(** summing further than the support changes nothing *)
+Lemma Rsum_extend n m f : (n <= m)%nat -> (forall i, (n <= i < m)%nat -> f i = 0) ->
+  Rsum n f = Rsum m f.
+Proof.
+  intros Hnm. induction m as [|m IH]; intros Hz.
+  - replace n with 0%nat by lia. reflexivity.
+  - destruct (Nat.eq_dec n (S m)) as [->|Hne]; [reflexivity|].
+    rewrite Rsum_S, <- IH by (try lia; intros; apply Hz; lia).
+    rewrite Hz by lia. ring.
+Qed.
+
+Variables (P ns : nat).
+(** source array (polynomial axes in the Chebyshev basis, momentum axes in the Cardinal one) *)
+Variable C : list nat -> R.
+(** cardinal functions of the SOURCE grid along pz and pp (vanishing at the dropped endpoints) *)
+Variables phi psi : nat -> R -> R.
+
+(** Polynomial.evaluate on the two momentum axes: sum of coefficient x cardinal x cardinal *)
+Definition ev_card (x y : R) (rest : list nat) : R :=
+  match rest with
+  | [a; b; j; k] => Rsum ns (fun al' => Rsum ns (fun be' =>
+                      C [a; al'; be'; b; j; k] * phi al' x * psi be' y))
+  | _ => 0
+  end.
+
+Definition S3 (n1 n2 n3 : nat) (f : nat -> nat -> nat -> R) : R :=
+  Rsum n1 (fun b => Rsum n2 (fun j => Rsum n3 (fun k => f b j k))).
+Definition S2 (f : nat -> nat -> R) : R := Rsum ns (fun a => Rsum ns (fun b => f a b)).
+
+(** the source operator applied to Chebyshev coefficients c: values at the source nodes *)
+Definition act_src (c : nat -> nat -> nat -> R) (a al' be' : nat) : R :=
+  S3 P ns ns (fun b j k => C [a; al'; be'; b; j; k] * c b j k).
+(** the polynomial through node values v (zero at the dropped endpoints) *)
+Definition interpolant (v : nat -> nat -> R) (x y : R) : R :=
+  S2 (fun al' be' => v al' be' * phi al' x * psi be' y).
+
+Lemma S3_ext n1 n2 n3 f g :
+  (forall b j k, (b < n1)%nat -> (j < n2)%nat -> (k < n3)%nat -> f b j k = g b j k) ->
+  S3 n1 n2 n3 f = S3 n1 n2 n3 g.
+Proof. intros H. unfold S3. repeat (apply Rsum_ext; intros). apply H; assumption. Qed.
+
+Lemma S3_S2_swap n1 n2 n3 (h : nat -> nat -> nat -> nat -> nat -> R) :
+  S3 n1 n2 n3 (fun b j k => S2 (fun x y => h b j k x y)) =
+  S2 (fun x y => S3 n1 n2 n3 (fun b j k => h b j k x y)).
+Proof.
+  unfold S3, S2.
+  (* move the two inner sums outwards one level at a time *)
+  transitivity (Rsum n1 (fun b => Rsum n2 (fun j => Rsum ns (fun x => Rsum ns (fun y =>
+                 Rsum n3 (fun k => h b j k x y)))))).
+  { repeat (apply Rsum_ext; intros). rewrite Rsum_swap. apply Rsum_ext; intros.
+    apply Rsum_swap. }
+  transitivity (Rsum n1 (fun b => Rsum ns (fun x => Rsum ns (fun y => Rsum n2 (fun j =>
+                 Rsum n3 (fun k => h b j k x y)))))).
+  { apply Rsum_ext; intros. rewrite Rsum_swap. apply Rsum_ext; intros. apply Rsum_swap. }
+  rewrite Rsum_swap. apply Rsum_ext; intros. apply Rsum_swap.
+Qed.
+
+Variables (Nt : nat) (rz rp : nat -> R).
+Let n := (Nt - 1)%nat.
+(** the array interpolateCollisionArray builds (generated pipeline on the modelled evaluate) *)
+Definition interpolated : arr R :=
+  interp_layout P Nt (evaluated 0 0 ev_card P Nt ns rz rp).
+Definition act_tgt (c : nat -> nat -> nat -> R) (a al be : nat) : R :=
+  S3 P n n (fun b j k => get interpolated [a; al; be; b; j; k] * c b j k).
+
+Theorem interp_low_order_exact : forall c a al be,
+  (n <= ns)%nat -> (a < P)%nat -> (al < n)%nat -> (be < n)%nat ->
+  (forall b j k, (n <= j)%nat \/ (n <= k)%nat -> c b j k = 0) ->
+  act_tgt c a al be = interpolant (act_src c a) (rz al) (rp be).
+Proof.
+  intros c a al be Hn Ha Hal Hbe Hlow. unfold act_tgt, interpolant, act_src.
+  (* entries of the interpolated array are point evaluations of the pair *)
+  rewrite (S3_ext P n n _ (fun b j k => ev_card (rz al) (rp be) [a; b; j; k] * c b j k)).
+  2:{ intros b j k Hb Hj Hk. unfold interpolated.
+      rewrite (interp_entry_is_pair_evaluation 0 0 ev_card) by (fold n; lia). reflexivity. }
+  (* the truncated sums equal the full ones on low-order coefficients *)
+  transitivity (S3 P ns ns (fun b j k => ev_card (rz al) (rp be) [a; b; j; k] * c b j k)).
+  { unfold S3. apply Rsum_ext; intros b Hb.
+    transitivity (Rsum n (fun j => Rsum ns (fun k =>
+                    ev_card (rz al) (rp be) [a; b; j; k] * c b j k))).
+    - apply Rsum_ext; intros j Hj. apply Rsum_extend; [exact Hn|].
+      intros k Hk. rewrite Hlow by (right; lia). ring.
+    - apply Rsum_extend; [exact Hn|]. intros j Hj. apply Rsum_zero.
+      intros k Hk. rewrite Hlow by (left; lia). ring. }
+  (* exchange the order of summation *)
+  cbn [ev_card].
+  rewrite (S3_ext P ns ns _ (fun b j k => S2 (fun x y =>
+             C [a; x; y; b; j; k] * phi x (rz al) * psi y (rp be) * c b j k))).
+  2:{ intros. unfold S2. rewrite Rsum_mul_r. apply Rsum_ext; intros. apply Rsum_mul_r. }
+  rewrite S3_S2_swap. unfold S2. apply Rsum_ext; intros x Hx. apply Rsum_ext; intros y Hy.
+  unfold S3. rewrite !Rsum_mul_r. apply Rsum_ext; intros b Hb.
+  rewrite !Rsum_mul_r. apply Rsum_ext; intros j Hj.
+  rewrite !Rsum_mul_r. apply Rsum_ext; intros k Hk. ring.
+Qed.
+
+(** pairwise independence: block (a, b) of the result only depends on block (a, b) of the
+    source -- whatever other particles are present *)
+End Action.
+
+Theorem interp_low_order_exact_thm :
+  forall (P ns : nat) (C : list nat -> R) (phi psi : nat -> R -> R) (Nt : nat)
+         (rz rp : nat -> R) (c : nat -> nat -> nat -> R) (a al be : nat),
+  (Nt - 1 <= ns)%nat -> (a < P)%nat -> (al < Nt - 1)%nat -> (be < Nt - 1)%nat ->
+  (forall b j k, (Nt - 1 <= j)%nat \/ (Nt - 1 <= k)%nat -> c b j k = 0%R) ->
+  act_tgt P ns C phi psi Nt rz rp c a al be =
+  interpolant ns phi psi (act_src P ns C c a) (rz al) (rp be).
+Proof. exact interp_low_order_exact. Qed.
+Print Assumptions interp_low_order_exact_thm.
+
+Theorem interp_pairwise_independent :
+  forall (P P' ns : nat) (C C' : list nat -> R) (phi psi : nat -> R -> R) (Nt : nat)
+         (rz rp : nat -> R) (a b a' b' al be j k : nat),
+  (Nt - 1 <= ns)%nat -> (a < P)%nat -> (b < P)%nat -> (a' < P')%nat -> (b' < P')%nat ->
+  (al < Nt - 1)%nat -> (be < Nt - 1)%nat -> (j < Nt - 1)%nat -> (k < Nt - 1)%nat ->
+  (forall x y, C [a; x; y; b; j; k] = C' [a'; x; y; b'; j; k]) ->
+  get (interpolated P ns C phi psi Nt rz rp) [a; al; be; b; j; k] =
+  get (interpolated P' ns C' phi psi Nt rz rp) [a'; al; be; b'; j; k].
+Proof.
+  intros. unfold interpolated.
+  rewrite !(interp_entry_is_pair_evaluation 0%R 0%R) by lia.
+  cbn [ev_card]. apply Rsum_ext; intros. apply Rsum_ext; intros. rewrite H8. reflexivity.
+Qed.
+Print Assumptions interp_pairwise_independent.
+
 (** * 3. Error kinds: every fault of the quantifier is a CollisionLoadError, and a load
        fails ONLY for those faults *)
-Lemma the_cfg_kinds_good : kinds_good the_cfg = true.
-Proof. vm_compute. reflexivity. Qed.
-
 (** D8 (now fixed): missing file, oversized target, size or basis mismatch between files *)
 Theorem load_error_kind : forall dir N req parts k,
   wf_dir dir parts -> known req = true -> parts <> [] ->
   newFromDirectory the_cfg dir N req parts true = Err k -> k = CollisionLoadError.
-Proof. exact (CollisionLoad.load_error_kind the_cfg the_cfg_data_good the_cfg_kinds_good). Qed.
+Proof. apply (CollisionLoad.load_error_kind the_cfg); facts_good. Qed.
 Print Assumptions load_error_kind.
 
 Theorem load_succeeds_iff : forall dir N req parts,
   known req = true -> parts <> [] -> wf_dir dir parts ->
   ((exists a, newFromDirectory the_cfg dir N req parts true = Ok a) <->
    fault_free dir N parts).
-Proof. exact (CollisionLoad.load_succeeds_iff the_cfg the_cfg_data_good the_cfg_kinds_good). Qed.
+Proof. apply (CollisionLoad.load_succeeds_iff the_cfg); facts_good. Qed.
 Print Assumptions load_succeeds_iff.
 
 (** * 4. Basis change: the collision operator acts identically (mathcomp matrices, any field) *)
